@@ -80,6 +80,7 @@ void World::c19_on_handshake_response(Client &cl, const Frame &f) {
 	if (!cl.c19) cl.c19 = new C19();
 	C19 &c = *cl.c19;
 	c.checked = true;
+	if (cl.c19_broken_by_fault) { c.broken = true; cl.no_expect = true; }
 	if (f.http_status != 101) { probe("c19_upgrade_refused:" + std::to_string(f.http_status)); c.broken = true; cl.no_expect = true; return; }
 	std::string low; for (char ch : f.raw) low += (char)tolower((unsigned char)ch);
 	std::string offer = hexdec(cl.policy.gets("offerhex"));
